@@ -74,6 +74,37 @@ def check_axioms(ctx):
         if res["error"]:
             raise ToolingError("TLC error on axiom %r:\n%s" % (body, res["error"][-1500:]))
         results.append((body, res["violated"] is None, res["distinct"], res["out"][-1200:] if res["violated"] else ""))
+    # thorough: all integers, by Apalache (symbolic; one module, one invariant per axiom, length 0)
+    apa = {"ran": False, "proved": 0, "note": ""}
+    if ctx.tier == "thorough":
+        import shutil as _sh, subprocess as _sp, os as _os
+        if _sh.which("apalache-mc") is None:
+            apa["note"] = "apalache-mc not found"
+        else:
+            d = ctx.subdir("apalache")
+            for i, (body, c, ps) in enumerate(axs):
+                vs = sorted(set(re.findall(r"\b[a-z][0-9]?\b", c + " " + " ".join(ps))))
+                m3 = ["---- MODULE AxA%02d ----" % i, "EXTENDS Integers", "VARIABLES"]
+                m3.append(",\n".join("  \\* @type: Int;\n  %s" % v for v in vs))
+                m3 += ["Init == " + " /\\ ".join("%s \\in Int" % v for v in vs), "Next == UNCHANGED <<%s>>" % ", ".join(vs),
+                       "Ax == (%s) => (%s)" % (" /\\ ".join("(%s)" % tla_expr(p) for p in ps) if ps else "TRUE", tla_expr(c)), "===="]
+                fn = _os.path.join(d, "AxA%02d.tla" % i)
+                open(fn, "w").write("\n".join(m3) + "\n")
+                try:
+                    r = _sp.run(["apalache-mc", "check", "--length=0", "--inv=Ax", "--out-dir=" + _os.path.join(d, "out%d" % i), fn],
+                                capture_output=True, text=True, timeout=300, cwd=d)
+                except _sp.TimeoutExpired:
+                    apa["note"] += " timeout on axiom %d;" % (i + 1)
+                    continue
+                apa["ran"] = True
+                out = r.stdout + r.stderr
+                if "The outcome is: NoError" in out:
+                    apa["proved"] += 1
+                elif "The outcome is: Error" in out or "violat" in out.lower():
+                    results[i] = (body, False, results[i][2], "Apalache refutes the axiom over the integers:\n" + out[-1500:])
+                else:
+                    apa["note"] += " axiom %d: unexpected apalache output;" % (i + 1)
+    check_axioms.apalache = apa
     return axs, results, text
 
 
@@ -93,6 +124,7 @@ def run(ctx):
     cov["facts_exported"] = nfacts
     cov["axioms_checked"] = len(results)
     cov["axioms"] = [r[0] for r in results]
+    cov["axioms_apalache_all_integers"] = getattr(check_axioms, "apalache", {})
     cov["samples"] = [{"program": p["name"], "origin": p["origin"],
                        "facts": [wcorepipe.describe_node(p, f) for n in p["nodes"] if n.get("hf") for f in n["fx"]][:8]} for p in b.progs[:5]]
     cov["model_violations_found"] = len(viols)
